@@ -93,7 +93,7 @@ func TestC19(t *testing.T) {
 	if os.Getenv("VERIF_TIER") == "thorough" {
 		maxLen = 8 << 20
 	}
-	col := ev.Get("C19", "output", "1-6 jobs x 1-4 tasks running at the same time through the real TaskRunner; each task has 1-4 commands, each 'vhelper emit <spec>' (a generated sequence of stdout/stderr chunks with pauses; sizes 0 B to 300 KB, 8 MB in the thorough tier; partial last lines; arbitrary bytes or valid UTF-8) an interpreter builtin (echo/printf), or a child that re-opens /dev/stdout or /dev/stderr by path (> and >>); every chunk starts with a (job,task,stream,#) marker; task names over letters/digits/_-. space and non-ASCII; oracle: FileOutputStore.Reader(job,task,stream) equals the concatenation, in order, of that task's chunks for that stream over all its commands, GET /job/logs returns the same as strings (UTF-8 tasks), a task the job does not have and an unknown job give 404; a sixth of the tasks end with a failing command (their output up to it must still be complete) and half of the cases run a second round of the same jobs on the same store; non-trivial = >=64 KiB on a stream or >=2 commands or both streams used, with >=2 tasks writing at once; distinct by (shape of the case)")
+	col := ev.Get("C19", "output", "1-6 jobs x 1-4 tasks running at the same time through the real TaskRunner; each task has 1-4 commands, each 'vhelper emit <spec>' (a generated sequence of stdout/stderr chunks with pauses; sizes 0 B to 300 KB, 8 MB in the thorough tier; partial last lines; arbitrary bytes or valid UTF-8) an interpreter builtin (echo/printf), a child that re-opens /dev/stdout or /dev/stderr by path (> and >>), and emit commands whose streams the script merges (2>&1, 1>&2: the log must keep the order of the writes); every chunk starts with a (job,task,stream,#) marker; task names over letters/digits/_-. space and non-ASCII; oracle: FileOutputStore.Reader(job,task,stream) equals the concatenation, in order, of that task's chunks for that stream over all its commands, GET /job/logs returns the same as strings (UTF-8 tasks), a task the job does not have and an unknown job give 404; a sixth of the tasks end with a failing command (their output up to it must still be complete) and half of the cases run a second round of the same jobs on the same store; non-trivial = >=64 KiB on a stream or >=2 commands or both streams used, with >=2 tasks writing at once; distinct by (shape of the case)")
 	vh := helper(t)
 	rapid.Check(t, func(rt *rapid.T) {
 		nJobs := rapid.IntRange(1, 6).Draw(rt, "nJobs")
@@ -101,7 +101,7 @@ func TestC19(t *testing.T) {
 		defer os.RemoveAll(specDir)
 		defs := &definition.PipelinesDef{Pipelines: definition.PipelinesMap{}}
 		expects := make([][]taskExpect, nJobs)
-		big, multiCmd, bothStreams, anyFails := false, false, false, false
+		big, multiCmd, bothStreams, anyFails, merged := false, false, false, false, false
 		writers := 0
 		for j := 0; j < nJobs; j++ {
 			nT := rapid.IntRange(1, 4).Draw(rt, "nTasks")
@@ -134,24 +134,30 @@ func TestC19(t *testing.T) {
 						te.stderr = append(te.stderr, txt...)
 					default:
 						nCh := rapid.IntRange(0, 5).Draw(rt, "nChunks")
+						// the script may merge the two streams of the command: then the order in which the
+						// command wrote to its two descriptors is the order in the one log
+						merge := rapid.SampledFrom([]string{"", "", "", "", " 2>&1", " 1>&2"}).Draw(rt, "merge")
 						var spec []specChunk
 						for k := 0; k < nCh; k++ {
 							s := rapid.SampledFrom([]int{1, 1, 2}).Draw(rt, "stream")
 							data := append([]byte(fmt.Sprintf("<j%d/t%d/s%d/c%d#%d>", j, ti, s, c, k)), genPayload(rt, maxLen, te.utf8)...)
 							pause := rapid.SampledFrom([]int{0, 0, 0, 50, 500}).Draw(rt, "pauseUs")
 							spec = append(spec, specChunk{s, base64.StdEncoding.EncodeToString(data), pause})
-							if s == 1 {
+							if (s == 1 && merge != " 1>&2") || merge == " 2>&1" {
 								te.stdout = append(te.stdout, data...)
 							} else {
 								te.stderr = append(te.stderr, data...)
 							}
+						}
+						if merge != "" && nCh >= 2 {
+							merged = true
 						}
 						b, _ := json.Marshal(spec)
 						p := filepath.Join(specDir, fmt.Sprintf("j%dt%dc%d.json", j, ti, c))
 						if err := os.WriteFile(p, b, 0o666); err != nil {
 							rt.Fatalf("spec: %v", err)
 						}
-						script = append(script, vh+" emit "+p)
+						script = append(script, vh+" emit "+p+merge)
 					}
 				}
 				if rapid.IntRange(0, 5).Draw(rt, "taskFails") == 0 {
@@ -207,7 +213,7 @@ func TestC19(t *testing.T) {
 		}
 		nontrivial := (big || multiCmd || bothStreams) && writers >= 2
 		col.Add(fmt.Sprintf("%d/%d/%v/%v/%v/%v", nJobs, writers, big, multiCmd, bothStreams, expectsShape(expects)), nontrivial,
-			map[string]int{"failing-task": btoi(anyFails), "second-round-after-failure": btoi(anyFails && rounds == 2), "two-rounds": btoi(rounds == 2), ">=64KiB-on-a-stream": btoi(big), ">=2-commands": btoi(multiCmd), "both-streams": btoi(bothStreams), "writers>=2": btoi(writers >= 2), "writers>=6": btoi(writers >= 6)}, writers,
+			map[string]int{"failing-task": btoi(anyFails), "second-round-after-failure": btoi(anyFails && rounds == 2), "two-rounds": btoi(rounds == 2), ">=64KiB-on-a-stream": btoi(big), ">=2-commands": btoi(multiCmd), "both-streams": btoi(bothStreams), "writers>=2": btoi(writers >= 2), "writers>=6": btoi(writers >= 6), "merged-streams": btoi(merged)}, writers,
 			map[string]interface{}{"jobs": nJobs, "tasks_writing": writers, "shape": expectsShape(expects)})
 	})
 }
